@@ -73,6 +73,31 @@ def gen_cases(tier, seed):
                     cfgv[cl.TOL_PAD] = 0
                     cfgv[cl.IGN_ZERO] = 0
                 yield cl.H(cfgv).call(inv.callid, inv.args, inv.blobs, [(10, rep)]).case(5000, inv.name)
+    # the same reply kinds after one or two 'response pending' frames, for every entry point; and for send_request with a timeout of its
+    # own (the one form no service method uses), also after an accepted session change that supplied server timings
+    for inv in invocations():
+        if inv.sid is None or inv.callid == 5:
+            continue
+        pend = bytes([0x7F, inv.sid, 0x78])
+        p = inv.positive
+        finals = [p, p[:1], p[:2], p + b'\x00', bytes([0x7F, inv.sid, 0x22]), bytes([0x7F, inv.sid]), b'\x7e\x00' if inv.sid != 0x3E else b'\x51\x01', b'', None]
+        for npend in (1, 2):
+            for fin in finals:
+                cfgv = list(cl.DEFAULT_CFG)
+                for s, v in inv.cfg.items():
+                    cfgv[s] = v
+                reps = [(10 + 5 * k, pend) for k in range(npend)] + ([(100, fin)] if fin is not None else [])
+                yield cl.H(cfgv).call(inv.callid, inv.args, inv.blobs, reps).case(5000, inv.name + ' after pending')
+    for timeout in (1500000, 250000, 0):
+        for session_first in (0, 1):
+            for npend in (0, 1, 2):
+                for fin in (b'\x7e\x00', b'\x7e', b'\x7f\x3e\x22', b'\x7f\x3e', b'\x51\x01', b'', None):
+                    h = cl.H(list(cl.DEFAULT_CFG))
+                    if session_first:
+                        h.call(2, [3], [], [(10, bytes([0x50, 3, 0x00, 0x32, 0x00, 0x64]))])
+                    reps = [(10 + 5 * k, b'\x7f\x3e\x78') for k in range(npend)] + ([(100, fin)] if fin is not None else [])
+                    h.call(1, [0x3E, 0, 0, 0, timeout], [b''], reps)
+                    yield h.case(5000, 'send_request with a timeout of its own')
     yield from gen_wide(tier, seed)
 
 
@@ -90,23 +115,23 @@ def impl(c):
 
 
 def oracle(c, r):
-    # value-returning helpers render as [0, 2, ...]
-    if r[0] == 2 and r[1] == 1:
-        # a ValueError after the request has gone out is not one of the documented outcomes of a reply either
-        cfgv, ops = cl.case_ops(c)
-        d = cl.parse_calls(r, 1)[0][0]
-        if any(e[0] == 'S' for e in d['events']):
+    cfgv, ops = cl.case_ops(c)
+    calls = [o for o in ops if o[0] == 'call']
+    for o, d in zip(calls, cl.parse_calls(r, len(calls))[0]):
+        _, callid, args, cb, reps = o
+        last = reps[-1][1].hex() if reps else '-'
+        if d['kind'] != 'raised':
+            continue
+        if d['err'] == 1 and any(e[0] == 'S' for e in d['events']):
+            # a ValueError after the request has gone out is not one of the documented outcomes of a reply either
             from harness import isospec
-            kind, why = isospec.expected(cfgv, ops[0][1], ops[0][2], ops[0][3])
+            kind, why = isospec.expected(cfgv, callid, args, cb)
             if kind == 'reject' and str(why).startswith('extended data size'):
-                return ('ext-size-checked-after-send', 'the extended data size is missing or out of range: ValueError raised only when the reply %s is decoded' % ops[0][4][0][1].hex())
-            return ('valueerror-after-send/%s' % c.tag.split('(')[0], 'reply %s made %s raise ValueError after the request was sent' % (ops[0][4][0][1].hex() if ops[0][4] else '-', c.tag))
-    if r[0] == 2:
-        err = r[1]
-        if err not in DOCUMENTED:
-            cfgv, ops = cl.case_ops(c)
-            rep = ops[0][4][0][1]
-            return ('internal-error/%s' % c.tag.split('(')[0], 'reply %s made %s raise an internal error (code %d: 20=IndexError 21=struct.error 22=AttributeError 23=TypeError 24=OverflowError 25=AssertionError 26=KeyError 99=other)' % (rep.hex(), c.tag, err))
+                return ('ext-size-checked-after-send', 'the extended data size is missing or out of range: ValueError raised only when the reply %s is decoded' % last)
+            return ('valueerror-after-send/%s' % c.tag.split('(')[0], 'reply %s made %s raise ValueError after the request was sent' % (last, c.tag))
+        if d['err'] not in DOCUMENTED:
+            return ('internal-error/%s' % c.tag.split('(')[0], 'replies %r made %s raise an internal error (code %d: 20=IndexError 21=struct.error 22=AttributeError 23=TypeError 24=OverflowError 25=AssertionError 26=KeyError 99=other)' % (
+                [f.hex() for _, f in reps], c.tag, d['err']))
     return None
 
 
